@@ -180,6 +180,32 @@ def run(rep, pdb, tier):
     # ---- no numerical decision is taken by the lexicographic order of complex values
     from .c01 import rule_magnitude
     n_cmp = rule_magnitude(rep, pdb, ["polynomial::Polynomial<f64>::roots", "%s::roots" % PC], key="magnitude")
+    # ---- quadratic: the sign that avoids cancellation in q = -(b + sgn*sqrt(disc))/2 is that of Re(conj(b) * sqrt(disc))
+    qs = pdb.fn("%s::quadratic_solve" % PC)
+    if qs is not None:
+        cq = Ctx.for_fn(pdb, qs)
+        tested = []
+        for n_ in walk(qs["body"]):
+            if n_.get("k") != "If":
+                continue
+            for at in cond_atoms(cq, n_["cond"], True):
+                if at[0] in ("cmp", "ncmp") and at[1] in ("<", "<=") and num(0) in (at[2], at[3]):
+                    t_ = at[3] if at[2] == num(0) else at[2]
+                    if t_[0] == "var":
+                        b_ = cq.binds.get(t_[1])
+                        t_ = cq.term(b_.init) if b_ is not None and b_.init is not None else t_
+                    if t_[0] == "field" and t_[2] == "real":
+                        tested.append((n_, t_[1]))
+        okq = len(tested) == 1
+        detq = "sign tests on a real part: %d" % len(tested)
+        if okq:
+            prod = tested[0][1]
+            conj_b = ("call", "complex::Complex<T>::conj", P(1))
+            issqrt = lambda x_: x_[0] == "call" and str(x_[1]).endswith("::sqrt")
+            okq = prod[0] == "op" and prod[1] == "*" and ((prod[2] == conj_b and issqrt(prod[3])) or (prod[3] == conj_b and issqrt(prod[2])))
+            detq = "tested quantity: Re(%s)" % show(prod, cq)[:120]
+        rep.add("quadratic-sign", "the sign of sqrt(disc) in q is chosen from Re(conj(b) * sqrt(disc)): without the conjugate the test is right for real b only, and a b with a dominant imaginary part "
+                "takes the cancelling branch", okq, tested[0][0] if tested else qs["body"], detq)
     # ---- the root finder gives up (panics) only for degree 0: no other `if .. { <diverges without returning> }` in the search
     from .guards import diverges as _div
     gave_up = []
